@@ -1,6 +1,7 @@
 package props
 
 import (
+	"go/token"
 	"fmt"
 	"strings"
 
@@ -256,6 +257,75 @@ func runC08(c *an.Ctx) {
 		}
 	}
 	c.MinCount("R4", "in-loop decrement of tx.Skip", nDec, 1)
+
+	// skip:N counts every entry of the current phase that is not removed: an iteration may go on to the next rule
+	// without having consulted the skip counter only because of the phase filter, the removal lists or a pending
+	// skipAfter (facts on the continuing block); anything else (e.g. "markers need no evaluation") makes some
+	// entries invisible to the counter, so skip:N passes over more rules than N.
+	{
+		skipRead := map[*ssa.BasicBlock]bool{}
+		an.Instrs(m.fn, func(in ssa.Instruction) {
+			if u, ok := in.(*ssa.UnOp); ok && u.Op == token.MUL && an.IsFieldAddrOf(u.X, fullWAF, "Transaction", "Skip") && m.loop.Blocks[in.Block()] {
+				skipRead[in.Block()] = true
+			}
+		})
+		if len(skipRead) == 0 {
+			c.Unknown("R4", "Eval: skip counter consulted", m.fn.Pos(), "no read of tx.Skip inside the rule loop")
+		}
+		passed := func(b *ssa.BasicBlock) bool {
+			for sb := range skipRead {
+				if sb == b || sb.Dominates(b) {
+					return true
+				}
+			}
+			return false
+		}
+		// continuing blocks: in-loop predecessors of the header, looking through trivial latch blocks
+		var conts []*ssa.BasicBlock
+		seenB := map[*ssa.BasicBlock]bool{}
+		var addPred func(b *ssa.BasicBlock, d int)
+		addPred = func(b *ssa.BasicBlock, d int) {
+			if seenB[b] || !m.loop.Blocks[b] || b == m.loop.Header {
+				return
+			}
+			seenB[b] = true
+			if len(b.Instrs) <= 2 && len(b.Preds) > 1 && d < 3 { // latch: i++ ; jump
+				for _, p := range b.Preds {
+					addPred(p, d+1)
+				}
+				return
+			}
+			conts = append(conts, b)
+		}
+		for _, p := range m.loop.Header.Preds {
+			addPred(p, 0)
+		}
+		nCont := 0
+		for _, b := range conts {
+			if passed(b) {
+				continue
+			}
+			nCont++
+			f := an.FactsAtBlock(b)
+			legit := false
+			for _, a := range f {
+				switch {
+				case strings.HasSuffix(a.L, ".Phase_") && a.Op == "!=" && a.R == "phase": // phase filter
+					legit = true
+				case strings.Contains(a.L, "ruleRemoveByID[") && a.Op == "==" && a.R == "true": // removed by id
+					legit = true
+				case strings.HasSuffix(a.L, ".ID_") && strings.HasPrefix(a.R, "rng["): // removed by id range
+					legit = true
+				case strings.HasSuffix(a.L, ".SkipAfter") && a.Op == "!=" && a.R == `""`: // pending skipAfter
+					legit = true
+				}
+			}
+			key := fmt.Sprintf("Eval: iteration that bypasses the skip counter #%d has a documented cause", nCont)
+			c.Check(legit, "R4", key, b.Instrs[0].Pos(), shortFacts(f),
+				"an iteration goes on to the next rule without consulting tx.Skip under "+shortFacts(f)+", which is none of: phase filter, removal by ctl, pending skipAfter — such entries are not counted by skip:N, so one rule too many is skipped")
+		}
+		c.MinCount("R4", "iterations bypassing the skip counter", nCont, 2)
+	}
 
 	// ---- R6 allow:request reset inside the loop only at phase 2.
 	for _, fs := range c.P.StoresToField(pkgWAF, "Transaction", "AllowType") {
